@@ -42,6 +42,8 @@ def gen_requests(arg):
     ncat = 40 if tier == "quick" else 200
     pick = sorted(rng.choice(len(ids), size=min(ncat, len(ids)), replace=False).tolist())
     reqs = [{"kind": "catalog", "id": ids[i], "rid": "cat:" + ids[i]} for i in pick]
+    for core in ("tanh", "sin", "erf"):
+        reqs.append({"kind": "fnmode", "core": core, "rid": f"fnmode:{core}"})
     gen = []
 
     @hypothesis.seed(derive_seed(seed, "c14gen"))
